@@ -311,6 +311,11 @@ pub fn adjust(cfg: &mut SwarmCfg, tier: &str, r: &mut Prng) {
             setw(cfg, "forge", 10);
             setw(cfg, "nm_propose", 4);
             setw(cfg, "update_clash", 3);
+            if r.chance(1, 2) {
+                // an external sender is listed in the group context: it may propose, but not every proposal type
+                cfg.knobs.push(("ext-sender".into(), 1));
+                setw(cfg, "forge_ext", 3);
+            }
             setw(cfg, "deliver", 14);
             setw(cfg, "crash", 0);
         }
@@ -390,6 +395,9 @@ pub fn extra_kinds(w: &World, kinds: &mut Vec<(&'static str, u32)>) {
     }
     if w.cfg.weight("xgroup") > 0 && w.groups.len() >= 2 {
         kinds.push(("xgroup", w.cfg.weight("xgroup")));
+    }
+    if w.cfg.weight("forge_ext") > 0 && g == 0 && w.ext.ext_sender.is_some() && !w.live_members(g).is_empty() {
+        kinds.push(("forge_ext", w.cfg.weight("forge_ext")));
     }
     if w.cfg.weight("update_clash") > 0 && g == 0 && w.live_members(g).len() >= 3 {
         kinds.push(("update_clash", w.cfg.weight("update_clash")));
@@ -547,6 +555,12 @@ pub fn extra_action(w: &mut World, kind: &str) -> Option<Action> {
             a: w.prng.next_u64() >> 16,
             b: w.prng.below(64),
             c: w.prng.below(9),
+        }),
+        "forge_ext" => Some(Action::Special {
+            kind: "forge_ext".into(),
+            a: w.prng.below(64),
+            b: 0,
+            c: 0,
         }),
         "update_clash" => {
             let live = w.live_members(g);
